@@ -41,7 +41,7 @@ NoRead == [ valid |-> FALSE, o |-> Absent ]
 NoObs  == [ valid |-> FALSE, present |-> FALSE, passes |-> FALSE, ctrl |-> FALSE ]
 
 IdlePass == [ active |-> FALSE, actor |-> "", target |-> "", oid |-> "", ouid |-> "", strategy |-> "native",
-              forced |-> FALSE, hasSnap |-> FALSE, snap |-> Absent, orev |-> 0, prev |-> {},
+              forced |-> FALSE, hasSnap |-> FALSE, snap |-> Absent, orev |-> 0, prev |-> {}, prevSeen |-> {},
               reads |-> [ k \in Keys |-> NoRead ],      \* last read of k in this pass (dynamic cache or uncached)
               unc |-> [ k \in Keys |-> NoRead ],        \* last UNCACHED read of k in this pass
               dryok |-> {},                             \* keys whose dry-run preflight was accepted
@@ -50,7 +50,7 @@ IdlePass == [ active |-> FALSE, actor |-> "", target |-> "", oid |-> "", ouid |-
               verdict |-> [ k \in Keys |-> "" ],        \* adoption ladder on the state read
               writes |-> <<>>,                          \* keys of non-dry state-changing writes on managed keys
               sliceObjs |-> [ k \in Keys |-> <<>> ],
-              sliceLoaded |-> {},
+              sliceLoaded |-> {}, sliceMissing |-> {},   \* slices read / read as NotFound in this pass
               apiErr |-> FALSE, calls |-> 0, status |-> Absent, statusWritten |-> FALSE,
               finRemoved |-> FALSE,
               listed |-> <<>>, hasList |-> FALSE,       \* deployment controller: the ObjectSets it listed
@@ -132,9 +132,16 @@ RemoteObs(o) == [ valid |-> TRUE, present |-> o.exists,
                                       /\ CondOf(o.cr, "Available").cur,
                   ctrl |-> TRUE ]
 
+\* the declared previous revisions the pass decides with: those it looked up as it saw them; one it did NOT look up
+\* before judging an object is taken as it is (the statement speaks of the DECLARED previous revisions - a pass
+\* that skips the lookup cannot make a permitted adoption a collision)
+PrevEff(pr) ==
+    pr.prev \cup { [ id |-> store[x].oid, uid |-> store[x].uid, remote |-> store[x].cr.remotePhases ] :
+                      x \in { y \in Range(pr.snap.cr.previous) \cap Keys : y \notin pr.prevSeen /\ store[y].exists } }
+
 Verdict(pr, k, o) ==
     IF ~o.exists THEN "Create"
-    ELSE Adopt(pr.strategy, pr.oid, pr.ouid, pr.orev, o, pr.prev, CPOf(pr, k), pr.forced)
+    ELSE Adopt(pr.strategy, pr.oid, pr.ouid, pr.orev, o, PrevEff(pr), CPOf(pr, k), pr.forced)
 
 (* ---------------- event consumption ---------------- *)
 
@@ -284,10 +291,12 @@ TrRead ==
             THEN \* previous revision lookup
                  pass' = [ pass EXCEPT ![p].prev = @ \cup { IF ok THEN [ id |-> o.oid, uid |-> o.uid, remote |-> o.cr.remotePhases ]
                                                                   ELSE [ id |-> "", uid |-> "", remote |-> <<>> ] },
+                                       ![p].prevSeen = @ \cup {k},
                                        ![p].calls = @ + 1 ]
           ELSE IF IsSetActor(pr.actor) /\ pr.hasSnap /\ (\E j \in 1..NPhases(pr) : k \in Range(pr.snap.cr.phases[j].slices))
             THEN pass' = [ pass EXCEPT ![p].sliceObjs[k] = IF ok THEN o.cr.objects ELSE <<>>,
-                                       ![p].sliceLoaded = @ \cup {k}, ![p].calls = @ + 1 ]
+                                       ![p].sliceLoaded = @ \cup {k},
+                                       ![p].sliceMissing = IF nf THEN @ \cup {k} ELSE @ \ {k}, ![p].calls = @ + 1 ]
           ELSE IF IsSetActor(pr.actor) /\ pr.hasSnap
                   /\ (\E j \in 1..NPhases(pr) : IsDelegated(pr, j) /\ k = pr.snap.cr.phases[j].phaseKey)
             THEN pass' = [ pass EXCEPT ![p].reads[k] = [ valid |-> TRUE, o |-> o ],
@@ -301,6 +310,7 @@ TrRead ==
                                        ![p].obs[k] = ObsOf(pr, o),
                                        ![p].verdict[k] = IF Rollout(pr) /\ ~SnapPaused(pr) /\ ~IsDelegatedKey(pr, k)
                                                            THEN Verdict(pr, k, o) ELSE @,
+                                       ![p].prev = PrevEff(pr), ![p].prevSeen = @ \cup (Range(pr.snap.cr.previous) \cap Keys),
                                        ![p].calls = @ + 1 ]
           ELSE pass' = [ pass EXCEPT ![p].calls = @ + 1, ![p].nf = IF nf /\ E.role = "uncached" THEN @ \cup {k} ELSE @ ]
     /\ UNCHANGED <<store, hist, scen>>
@@ -491,7 +501,10 @@ Act_C02_RevisionFixed ==
 ---------------------------------------------------------------------------
 (* C03 phases in order, gated on probes — for the ObjectSet controller's own writes *)
 
-AllOK(pr, j) == \A k \in PhaseWriteKeys(pr, j) : pr.obs[k].valid /\ pr.obs[k].present /\ pr.obs[k].passes
+\* every object of phase j - also those in its slices: a slice that could not be read hides objects nobody judged -
+\* was seen present and passing
+AllOK(pr, j) == /\ \A k \in PhaseWriteKeys(pr, j) : pr.obs[k].valid /\ pr.obs[k].present /\ pr.obs[k].passes
+                /\ Range(pr.snap.cr.phases[j].slices) \cap pr.sliceMissing = {}
 
 Inv_C03_Gate ==
     (CtlWrite /\ ~W.dry /\ IsSetActor(W.actor) /\ Rollout(PR) /\ W.key \in ManagedKeys(PR)
